@@ -29,3 +29,18 @@ Definition EE (a d : Z) : @evaluation NumF := EElectre a d.
 Definition EM (v : float) (cw : string) (cv : float) : @evaluation NumF := EMajority v cw cv.
 Definition EA (th : list (string * float)) (i : Z) : @evaluation NumF := EAspect th i.
 Definition ES (th : list (string * float)) (i : Z) : @evaluation NumF := ESatisf th i.
+
+(** states and parsed parameters as dumped from the running code *)
+Definition mkWC (c : @crit NumF) (w : float) : @wcrit NumF := (c, w).
+Definition mkState (nc cs : list (@alt NumF)) (cr : list (@crit NumF)) (p : @mparams NumF) : @state NumF :=
+  {| st_notcons := nc; st_cons := cs; st_crits := cr; st_params := p |}.
+Definition P_ws (wc : list (@wcrit NumF)) : @mparams NumF := PWs wc.
+Definition P_owa (wc : list (@wcrit NumF)) : @mparams NumF := POwa wc.
+Definition P_choquet (w : list (string * float)) (cs : list (@crit NumF)) : @mparams NumF := PChoquet w cs.
+Definition P_electre (ec : list (string * @ecrit NumF)) (d : @linfun NumF) : @mparams NumF := PElectre ec d.
+Definition P_majority (w : list (string * float)) (cur : string) (seed : Z) (rnd : bool) (dr : string) : @mparams NumF :=
+  PMajority w cur seed rnd dr.
+Definition P_aspect (fn : string) (lp : @lparams NumF) (seed : Z) (w : list (string * float)) (rnd : bool) : @mparams NumF :=
+  PAspect fn lp seed w rnd.
+Definition P_satisf (fn : string) (lp : @lparams NumF) (seed : Z) (cur : string) (rnd : bool) : @mparams NumF :=
+  PSatisf fn lp seed cur rnd.
